@@ -1913,7 +1913,7 @@ def run_thorough(ctx: Context) -> None:
             ck.check(R, _ci(w) == size, f"sweep: {g.qualname.split('.', 1)[1]}: unpack {s['fmt']} ({size} bytes) reads a slice of {_ci(w)} bytes",
                      f"{ctx.fkey(g)}:sweep-unpack-width:{s['fmt']}",
                      f"{g.qualname}: `{_u(s['call'])[:70]}` unpacks {size} bytes from a slice of {_ci(w)} bytes - struct.error on every message", ctx.loc(g, s["node"]))
-    ck.require_min(R, "sweep: unpack sites on constant-width slices", n_sliced, 7)
+    ck.require_min(R, "sweep: unpack sites on constant-width slices", n_sliced, 4)
     ck.extra_coverage["sweep_unpack_sites"] = {"sliced_checked": n_sliced, "whole_field_not_applicable": n_whole, "non_constant_width_not_decided": n_open}
 
 
